@@ -3,7 +3,7 @@ preprocessed map in the gradual constructor and the one-shot calculation)."""
 from props import C07
 
 EXPLANATION = (
-    "Decides three structural clauses only. R1: for each of the four modes the gradual constructor "
+    "Decides four structural clauses only. R1: for each of the four modes the gradual constructor "
     "(IGameMode::gradual_difficulty) and the one-shot calculation (IGameMode::difficulty) start from the same "
     "map — both use their map parameter solely as receiver of convert_ref(own mode, difficulty.get_mods()) and "
     "both invoke the same set of &mut Beatmap preprocessors on the converted map under the same guards (followed "
@@ -11,7 +11,8 @@ EXPLANATION = (
     "and breaks the property for every play with that mod. R2: the set of Difficulty::get_* settings reachable from the "
     "one-shot calculation equals the set reachable from the gradual calculator's methods (passed_objects aside): a setting "
     "consulted by only one side (e.g. the clock rate) makes the two disagree for every non-default value. R3: the gradual count state (mania NoteState, osu gradual "
-    "attribute counters) is written only by its per-object delta function or reset to zero, so no object is counted by a second formula. Equality of the values per prefix (nth arithmetic, "
+    "attribute counters) is written only by its per-object delta function or reset to zero, so no object is counted by a second formula. R4: no integer truncation is fed by a value that was stored divided by the "
+    "clock rate and multiplied by it again (inexact round trip; the one-shot path truncates the unscaled value). Equality of the values per prefix (nth arithmetic, "
     "count deltas) is numeric and NOT decided.")
 
 
@@ -40,6 +41,7 @@ def run(ctx):
         if a == b:
             ctx.ok('C02-R2', mode + ':settings', 'one-shot and gradual %s paths consult the same Difficulty settings: %s (passed_objects aside)' % (mode, sorted(a)))
     r3_counters(ctx, F)
+    r4_roundtrip(ctx, F)
     ctx.not_decided('equality of the i-th gradual value with the one-shot value for passed_objects(i); number of values; '
                     'final value equals full calculation (arithmetic over runtime values)')
 
@@ -86,7 +88,13 @@ def r3_counters(ctx, F):
                 writes.append((fn, fld, v, incr, a['line']))
         delta_fns = sorted({w[0].path for w in writes if w[3]})
         if not delta_fns:
-            ctx.violation('C02-R3', label + ':no-delta', 'no function increments the %s per object' % label)
+            # no incremental counting at all: accepted when every write copies the one-shot calculation's own counters
+            # (the state is then a table of one-shot counts, equal by construction)
+            from_oneshot = bool(writes) and all(
+                (prov.strip(w[2], names=set())[0] == 'call' and (prov.strip(w[2], names=set())[1].get('impl_adt') or '').endswith('ObjectParams')) or
+                (prov.strip(w[2])[0] == 'const' and prov.strip(w[2])[1].get('val') in ('0', 'false')) for w in writes)
+            ctx.require(from_oneshot, 'C02-R3', label + ':table', '%s is filled from the one-shot counters (ObjectParams) only: %d write(s)' % (label, len(writes)),
+                        bad='no function increments the %s per object and it is not filled from the one-shot counters either' % label)
             continue
         bad = 0
         for fn, fld, v, incr, line in writes:
@@ -101,3 +109,82 @@ def r3_counters(ctx, F):
                               fn.where(line))
         if not bad:
             ctx.ok('C02-R3', label, '%s: %d write(s); all non-reset writes are increments inside %s' % (label, len(writes), delta_fns))
+
+
+# ---- R4: no clock-rate scale round trip ((x / rate) * rate) feeds an integer truncation in the gradual path
+def r4_roundtrip(ctx, F):
+    """A value stored divided by the clock rate and multiplied by it again is not the original value in floating point;
+    truncating it to an integer turns the 1-ulp error into an off-by-one count that the one-shot calculation (which
+    truncates the unscaled value) does not make."""
+    import fieldidx
+    import prov
+    from common import as_param_path
+
+    def rate_like(fn, v):
+        v = prov.strip(v)
+        if v[0] == 'call' and v[1].get('name') == 'get_clock_rate':
+            return True
+        if v[0] == 'param' and 'clock_rate' in fn.arg_name(v[1]):
+            return True
+        pp = as_param_path(v)
+        return bool(pp and pp[1] and 'clock_rate' in pp[1][-1])
+
+    # fields whose every write is  X / <clock rate>
+    scaled = set()
+    for a in F.adts.values():
+        if '::difficulty::' not in a['path']:
+            continue
+        for var in a['variants']:
+            for f in var['fields']:
+                if f['ty']['s'] != 'f64':
+                    continue
+                ws = [x for x in fieldidx.accesses(F, a['path'], f['name']) if x['kind'] in ('assign', 'agg-init')
+                      and x['fn'].impl_trait not in ('std::clone::Clone', 'std::default::Default') and x.get('stmt') is not None]
+                if not ws:
+                    continue
+                ok = True
+                for x in ws:
+                    fn, st = x['fn'], x['stmt']
+                    P = prov.prov_of(fn)
+                    idx = fn.blocks[x['bb']]['s'].index(st)
+                    v = P.rvalue(st['rv'], x['bb'], idx) if x['kind'] == 'assign' else \
+                        P.operand(st['rv']['ops'][st['rv']['fields'].index(f['name'])], x['bb'], idx)
+                    v = prov.strip(v)
+                    if not (v[0] == 'binop' and v[1] == 'Div' and rate_like(fn, v[3])):
+                        ok = False
+                if ok:
+                    scaled.add((a['path'], f['name']))
+    ctx.floor('C02-R4', len(scaled), 8, 'difficulty-object fields stored divided by the clock rate')
+    ncasts = 0
+    hits = set()
+    for fn in F.fns:
+        P = None
+        for bi, si, s in fn.assigns():
+            rv = s['rv']
+            if rv['k'] != 'cast' or rv['ck'] != 'FloatToInt':
+                continue
+            ncasts += 1
+            P = P or prov.prov_of(fn)
+            v = P.operand(rv['op'], bi, si)
+            cands = [(fn, v)]
+            for cfn, cbb, ct in F.callers().get(fn.path, []):
+                args = prov.prov_of(cfn).call_args(cbb)
+                cands.append((cfn, prov.subst(v, {i + 1: a for i, a in enumerate(args)})))
+            for cfn, vv in cands:
+                for n in prov.walk(vv, limit=400):
+                    if n[0] == 'binop' and n[1] == 'Mul':
+                        for a, b in ((n[2], n[3]), (n[3], n[2])):
+                            if rate_like(cfn, b):
+                                pa = as_param_path(a)
+                                if pa and pa[1] and pa[0] <= len(cfn.j.get('inputs', [])):
+                                    ty = cfn.j['inputs'][pa[0] - 1]
+                                    adt = ty.get('to_adt') or ty.get('adt')
+                                    if (adt, pa[1][-1]) in scaled:
+                                        hits.add((fn.path, adt, pa[1][-1], fn.where(s['ln'])))
+    for path, adt, fld, where in sorted(hits):
+        ctx.violation('C02-R4', '%s:%s.%s' % (path, adt.split('::')[-1], fld),
+                      '%s truncates to an integer a value computed from %s.%s * clock_rate, although that field is stored as (unscaled / clock_rate): the round trip is '
+                      'inexact, so the gradual count can be one less than the one-shot count (which truncates the unscaled value) for clock rates != 1' % (path, adt.split('::')[-1], fld), where)
+    if not hits:
+        ctx.ok('C02-R4', 'scan', '%d float-to-int truncations (with callers substituted one level): none takes a (field / rate) * rate round trip of the %d clock-rate-scaled fields'
+               % (ncasts, len(scaled)))
